@@ -5,6 +5,8 @@ import (
 	"flag"
 	"fmt"
 	"os"
+	"runtime/debug"
+	"runtime/pprof"
 	"strconv"
 	"strings"
 	"time"
@@ -23,6 +25,16 @@ func defaultCfg(tier string) *RunCfg {
 }
 
 func main() {
+	if p := os.Getenv("GOITSYM_PROF"); p != "" {
+		f, _ := os.Create(p)
+		pprof.StartCPUProfile(f)
+		defer pprof.StopCPUProfile()
+	}
+	realMain()
+}
+
+func realMain() {
+	debug.SetGCPercent(400)
 	if len(os.Args) < 2 {
 		fmt.Println("usage: goitsym run|check|callees ...")
 		os.Exit(2)
